@@ -811,11 +811,16 @@ RetDrive(h, e) ==
       h3a == IF rejected /\ ~o.bad /\ ~o.dc /\ ~o.unexp
              THEN Check(h2, TailHopeless(h), "C08", "a valid inbound packet was rejected")
              ELSE h2
+      \* C08: whatever is rejected as invalid kills the handle (also when the rejection happens while the
+      \* packet is still being framed: oversized remaining length, packet larger than the buffer)
+      h3b == IF rejected /\ ~o.dc
+             THEN Check(h3a, ~e.obs.live, "C08", "a packet was rejected as invalid but the connection handle stayed alive")
+             ELSE h3a
       \* C04: ... and if what was being read is a PUBLISH within the advertised limits, it was not delivered
       h3 == IF rejected /\ ~o.bad /\ ~o.dc /\ ~o.unexp /\ ~TailHopeless(h) /\ Len(h.rtail) >= 1
                /\ h.rtail[1] \div 16 = PUBLISH
-            THEN Viol(Tick(h3a, "C04"), "C04", "an inbound PUBLISH within the advertised limits was rejected instead of being delivered")
-            ELSE h3a
+            THEN Viol(Tick(h3b, "C04"), "C04", "an inbound PUBLISH within the advertised limits was rejected instead of being delivered")
+            ELSE h3b
       \* C18: a failure reason code is surfaced by the poll that consumed it
       h4 == IF o.rej >= 0 /\ ~o.dc
             THEN Check(h3, r.k = "err" /\ r.v = "Rejected" /\ r.code = o.rej, "C18",
